@@ -13,7 +13,8 @@ EXPLANATION = (
     'MessageLimitReached is dominated by the not-overflowed edge (or is the propagated error of a callee that checks '
     'first), and the caller\'s buffer is not used on the refusing branch; R05.5 the allocating open splits at '
     'len - Nt under a guard that maps a short input to OpenError; R05.6 wrappers propagate the in-place result '
-    'unchanged; R05.7 the nonce is helper(self.base_nonce, self.seq) read before any update. Not decided: that a '
+    'unchanged; R05.7 the nonce is helper(self.base_nonce, self.seq) read before any update, and the helper is the '
+    'injective big-endian counter encoding XOR base nonce (bit-provenance), so no other position\'s ciphertext can verify. Not decided: that a '
     'forged or out-of-sequence ciphertext fails the tag check (AEAD security).')
 TRUSTED = c04.TRUSTED + ['usize::checked_sub / Option::ok_or / slice::split_at semantics']
 ASSUME = c04.ASSUME
